@@ -247,7 +247,11 @@ class PtTebd(BaseAPIClass):
                 epsrel=self._parameters.epsrel,
                 config=self._backend_config)
         self._init_results()
-        self._apply_controls(step=self.step, post=False)
+        if self._start_step == 0:
+            # A computation that starts at a later step continues from a
+            # chain state exported at that step (`get_augmented_mps()`), in
+            # which the pre-measurement controls of that step already acted.
+            self._apply_controls(step=self.step, post=False)
         self._append_results()
 
     def _init_results(self) -> None:
